@@ -314,8 +314,9 @@ Definition path_handle_close (payload : bytes) : list op :=
 
 (* wsutil.ReadMessage / ReadData: the payload is read into a slice made for it
    (make / bytes.Buffer / ioutil.ReadAll) which is returned itself *)
-Definition path_read_message (payload : bytes) : list op :=
-  [OAlloc 0; OFill 0 payload; OOutView 0 0 (length payload); ODrop 0].
+Definition path_read_message_at (r : reg) (payload : bytes) : list op :=
+  [OAlloc r; OFill r payload; OOutView r 0 (length payload); ODrop r].
+Definition path_read_message (payload : bytes) : list op := path_read_message_at 0 payload.
 
 (* NOT a library-owned path — the documented-unsafe variant, kept as the positive control of
    the experiment: ParseCloseFrameDataUnsafe on a pooled buffer *)
